@@ -317,7 +317,7 @@ def term(o, t, last=False):
 
 # ---- random abstract grammars ----------------------------------------------------------------
 ALPHA = [97, 98, 65, 90, 48, 32, 10, 9, 34, 39, 92, 93, 91, 123, 125, 0xE9, 0x20AC, 0x1F600, 0x2190, 96, 45, 94, 47, 7]
-SPECIAL = [0x212A, 0x17F, 0xDF, 0x3A3, 0x3C2, 0x1C5, 0x2163, 0x2173, 0x1E9E, 0xB5]     # runes with unusual case orbits
+SPECIAL = [0x212A, 0x17F, 0xDF, 0x3A3, 0x3C2, 0x1C5, 0x2163, 0x2173, 0x1E9E, 0xB5, 0xFFFD, 0xFFFE, 0xD7FF, 0xE000, 0x10FFFF]     # runes with unusual case orbits
 
 
 def rand_rune(rng):
